@@ -1,0 +1,148 @@
+//go:build verif
+
+// Contracts for package socket (address conversions), checked by /verif/gvc (see /verif/DESIGN.md, C17).
+
+package socket
+
+// decimal digit text helpers ------------------------------------------------------------------------
+//
+// p10b(i): the largest value v can still have when the next digit goes to position i of the 32-byte buffer
+// (floor((2^64-1) / 10^(31-i))): ties the number of iterations to the width of uint.
+//@ pure p10b(i int) int := i >= 31 ? 18446744073709551615 : i == 30 ? 1844674407370955161 : i == 29 ? 184467440737095516 : i == 28 ? 18446744073709551 : i == 27 ? 1844674407370955 : i == 26 ? 184467440737095 : i == 25 ? 18446744073709 : i == 24 ? 1844674407370 : i == 23 ? 184467440737 : i == 22 ? 18446744073 : i == 21 ? 1844674407 : i == 20 ? 184467440 : i == 19 ? 18446744 : i == 18 ? 1844674 : i == 17 ? 184467 : i == 16 ? 18446 : i == 15 ? 1844 : i == 14 ? 184 : i == 13 ? 18 : i == 12 ? 1 : 0
+//
+// itod: the decimal text of v: only digits, no leading zero, between 1 and 20 characters, one character exactly for
+// v < 10, last digit v % 10. (The full value equation is covered by the bounded round-trip stand-in.)
+//@ func itod(v uint) (res string)
+//@   arith unchecked byte(v%10 + '0') is below 256
+//@   ensures len(res) >= 1 && len(res) <= 20
+//@   ensures forall k :: 0 <= k && k < len(res) ==> 48 <= res[k] && res[k] <= 57
+//@   ensures res[len(res) - 1] == 48 + v % 10
+//@   ensures v < 10 <==> len(res) == 1
+//@   ensures v >= 10 ==> res[0] != 48
+//@   loop 1:
+//@     invariant 11 <= i && i <= 31 && len(buf) == 32 && 0 <= v && v <= p10b(i) && (i == 31 ==> v == v$0 && v > 0) && (i == 30 ==> v == v$0 / 10) && (i < 30 ==> v$0 >= 10) &&
+//@          (i < 31 ==> buf[31] == 48 + v$0 % 10 && (v == 0 ==> buf[i + 1] != 48)) &&
+//@          (forall k :: i < k && k < 32 ==> 48 <= buf[k] && buf[k] <= 57)
+//@     decreases v
+//
+// dtoi: value of the run of digits starting at i0 (fails on an empty run or on values >= 0xFFFFFF).
+//@ func dtoi(s string, i0 int) (n int, i int, ok bool)
+//@   requires 0 <= i0 && i0 <= len(s)
+//@   ensures i0 <= i && i <= len(s) && 0 <= n && n < 16777215
+//@   ensures ok ==> i > i0 && forall k :: i0 <= k && k < i ==> 48 <= s[k] && s[k] <= 57
+//@   ensures !ok ==> n == 0
+//@   loop 1:
+//@     invariant i0$0 <= i && i <= len(s) && 0 <= n && n < 16777215 && (forall k :: i0$0 <= k && k < i ==> 48 <= s[k] && s[k] <= 57)
+//@     decreases len(s) - i
+//
+// address conversions -------------------------------------------------------------------------------
+//
+//@ import net "net"
+//@ import unix "golang.org/x/sys/unix"
+//@ pure as4(sa unix.Sockaddr) *unix.SockaddrInet4 := ref(sa)
+//@ pure as6(sa unix.Sockaddr) *unix.SockaddrInet6 := ref(sa)
+//@ pure asun(sa unix.Sockaddr) *unix.SockaddrUnix := ref(sa)
+//@ pure astcp(a net.Addr) *net.TCPAddr := ref(a)
+//@ pure asudp(a net.Addr) *net.UDPAddr := ref(a)
+//@ pure asunix(a net.Addr) *net.UnixAddr := ref(a)
+//
+// ip6ZoneToInt: "" is zone 0; anything else is an interface index or the decimal number written in the text.
+//@ func ip6ZoneToInt(zone string) (n int)
+//@   ensures len(zone) == 0 ==> n == 0
+//
+//@ func ip6ZoneToString(zone uint32) (s string)
+//@   ensures zone == 0 ==> len(s) == 0
+//
+// IPToSockaddr: nil IP is the unspecified address (v6 when a zone is given); a 4-byte or v4-mapped IP without zone becomes
+// an Inet4 address with exactly those 4 bytes; any other 4- or 16-byte IP becomes an Inet6 address with its 16-byte form;
+// every other length yields nil. The port is copied. Never panics.
+//@ func IPToSockaddr(ip net.IP, port int, zone string) (res unix.Sockaddr)
+//@   ensures !isnil(ip) && len(ip) != 4 && len(ip) != 16 ==> res == nil
+//@   ensures isnil(ip) && len(zone) == 0 ==> typeis(res, "*unix.SockaddrInet4") && ref(res) != nil && fresh(ref(res)) && as4(res).Port == port &&
+//@        as4(res).Addr[0] == 0 && as4(res).Addr[1] == 0 && as4(res).Addr[2] == 0 && as4(res).Addr[3] == 0
+//@   ensures isnil(ip) && len(zone) != 0 ==> typeis(res, "*unix.SockaddrInet6") && ref(res) != nil && fresh(ref(res)) && as6(res).Port == port
+//@   ensures !isnil(ip) && len(ip) == 4 && len(zone) == 0 ==> typeis(res, "*unix.SockaddrInet4") && ref(res) != nil && fresh(ref(res)) && as4(res).Port == port &&
+//@        as4(res).Addr[0] == ip[0] && as4(res).Addr[1] == ip[1] && as4(res).Addr[2] == ip[2] && as4(res).Addr[3] == ip[3]
+//@   ensures net.v4mapped(ip) && len(zone) == 0 ==> typeis(res, "*unix.SockaddrInet4") && ref(res) != nil && fresh(ref(res)) && as4(res).Port == port &&
+//@        as4(res).Addr[0] == ip[12] && as4(res).Addr[1] == ip[13] && as4(res).Addr[2] == ip[14] && as4(res).Addr[3] == ip[15]
+//@   ensures len(ip) == 16 && (!net.v4mapped(ip) || len(zone) != 0) ==> typeis(res, "*unix.SockaddrInet6") && ref(res) != nil && fresh(ref(res)) && as6(res).Port == port &&
+//@        (forall k :: 0 <= k && k < 16 ==> as6(res).Addr[k] == ip[k]) && (len(zone) == 0 ==> as6(res).ZoneId == 0)
+//@   ensures len(ip) == 4 && len(zone) != 0 ==> typeis(res, "*unix.SockaddrInet6") && ref(res) != nil && fresh(ref(res)) && as6(res).Port == port &&
+//@        as6(res).Addr[10] == 255 && as6(res).Addr[11] == 255 && as6(res).Addr[12] == ip[0] && as6(res).Addr[13] == ip[1] && as6(res).Addr[14] == ip[2] && as6(res).Addr[15] == ip[3] &&
+//@        (forall k :: 0 <= k && k < 10 ==> as6(res).Addr[k] == 0)
+//
+//@ func TCPAddrToSockaddr(addr *net.TCPAddr) (res unix.Sockaddr)
+//@   requires addr != nil
+//@   ensures !isnil(addr.IP) && len(addr.IP) != 4 && len(addr.IP) != 16 ==> res == nil
+//@   ensures len(addr.IP) == 4 && len(addr.Zone) == 0 ==> typeis(res, "*unix.SockaddrInet4") && ref(res) != nil && as4(res).Port == addr.Port &&
+//@        as4(res).Addr[0] == addr.IP[0] && as4(res).Addr[1] == addr.IP[1] && as4(res).Addr[2] == addr.IP[2] && as4(res).Addr[3] == addr.IP[3]
+//@   ensures len(addr.IP) == 16 && !net.v4mapped(addr.IP) ==> typeis(res, "*unix.SockaddrInet6") && ref(res) != nil && as6(res).Port == addr.Port &&
+//@        (forall k :: 0 <= k && k < 16 ==> as6(res).Addr[k] == addr.IP[k]) && (len(addr.Zone) == 0 ==> as6(res).ZoneId == 0)
+//
+//@ func UDPAddrToSockaddr(addr *net.UDPAddr) (res unix.Sockaddr)
+//@   requires addr != nil
+//@   ensures !isnil(addr.IP) && len(addr.IP) != 4 && len(addr.IP) != 16 ==> res == nil
+//@   ensures len(addr.IP) == 4 && len(addr.Zone) == 0 ==> typeis(res, "*unix.SockaddrInet4") && ref(res) != nil && as4(res).Port == addr.Port &&
+//@        as4(res).Addr[0] == addr.IP[0] && as4(res).Addr[1] == addr.IP[1] && as4(res).Addr[2] == addr.IP[2] && as4(res).Addr[3] == addr.IP[3]
+//@   ensures len(addr.IP) == 16 && !net.v4mapped(addr.IP) ==> typeis(res, "*unix.SockaddrInet6") && ref(res) != nil && as6(res).Port == addr.Port &&
+//@        (forall k :: 0 <= k && k < 16 ==> as6(res).Addr[k] == addr.IP[k]) && (len(addr.Zone) == 0 ==> as6(res).ZoneId == 0)
+//
+//@ func IPAddrToSockaddr(addr *net.IPAddr) (res unix.Sockaddr)
+//@   requires addr != nil
+//@   ensures !isnil(addr.IP) && len(addr.IP) != 4 && len(addr.IP) != 16 ==> res == nil
+//
+// UnixAddrToSockaddr: the path is kept as is; the socket type follows the network name; unknown networks yield (nil, 0).
+//@ func UnixAddrToSockaddr(addr *net.UnixAddr) (res unix.Sockaddr, t int)
+//@   requires addr != nil
+//@   ensures addr.Net == "unix" ==> t == 1 && typeis(res, "*unix.SockaddrUnix") && ref(res) != nil && asun(res).Name == addr.Name
+//@   ensures addr.Net == "unixgram" ==> t == 2 && typeis(res, "*unix.SockaddrUnix") && ref(res) != nil && asun(res).Name == addr.Name
+//@   ensures addr.Net == "unixpacket" ==> t == 5 && typeis(res, "*unix.SockaddrUnix") && ref(res) != nil && asun(res).Name == addr.Name
+//@   ensures addr.Net != "unix" && addr.Net != "unixgram" && addr.Net != "unixpacket" ==> res == nil && t == 0
+//
+// NetAddrToSockaddr: dispatch on the dynamic type; unsupported address types (and typed nil results of the helpers) give nil.
+//@ func NetAddrToSockaddr(addr net.Addr) (res unix.Sockaddr)
+//@   requires ref(addr) != nil || addr == nil
+//@   ensures !(typeis(addr, "*net.IPAddr") || typeis(addr, "*net.TCPAddr") || typeis(addr, "*net.UDPAddr") || typeis(addr, "*net.UnixAddr")) ==> res == nil
+//@   ensures typeis(addr, "*net.TCPAddr") && len(astcp(addr).IP) == 4 && len(astcp(addr).Zone) == 0 ==> typeis(res, "*unix.SockaddrInet4") && ref(res) != nil && as4(res).Port == astcp(addr).Port &&
+//@        as4(res).Addr[0] == astcp(addr).IP[0] && as4(res).Addr[1] == astcp(addr).IP[1] && as4(res).Addr[2] == astcp(addr).IP[2] && as4(res).Addr[3] == astcp(addr).IP[3]
+//@   ensures typeis(addr, "*net.UDPAddr") && len(asudp(addr).IP) == 16 && !net.v4mapped(asudp(addr).IP) ==> typeis(res, "*unix.SockaddrInet6") && ref(res) != nil && as6(res).Port == asudp(addr).Port &&
+//@        (forall k :: 0 <= k && k < 16 ==> as6(res).Addr[k] == asudp(addr).IP[k])
+//@   ensures typeis(addr, "*net.UnixAddr") && asunix(addr).Net == "unix" ==> typeis(res, "*unix.SockaddrUnix") && asun(res).Name == asunix(addr).Name
+//
+// SockaddrToTCPOrUnixAddr / SockaddrToUDPAddr: the address bytes, the port and the path are those of the kernel address.
+//@ func SockaddrToTCPOrUnixAddr(sa unix.Sockaddr) (res net.Addr)
+//@   requires ref(sa) != nil || sa == nil
+//@   ensures typeis(sa, "*unix.SockaddrInet4") ==> typeis(res, "*net.TCPAddr") && ref(res) != nil && astcp(res).Port == as4(sa).Port && len(astcp(res).IP) == 4 && len(astcp(res).Zone) == 0 &&
+//@        astcp(res).IP[0] == as4(sa).Addr[0] && astcp(res).IP[1] == as4(sa).Addr[1] && astcp(res).IP[2] == as4(sa).Addr[2] && astcp(res).IP[3] == as4(sa).Addr[3]
+//@   ensures typeis(sa, "*unix.SockaddrInet6") ==> typeis(res, "*net.TCPAddr") && ref(res) != nil && astcp(res).Port == as6(sa).Port && len(astcp(res).IP) == 16 &&
+//@        (forall k :: 0 <= k && k < 16 ==> astcp(res).IP[k] == as6(sa).Addr[k]) && (as6(sa).ZoneId == 0 ==> len(astcp(res).Zone) == 0)
+//@   ensures typeis(sa, "*unix.SockaddrUnix") ==> typeis(res, "*net.UnixAddr") && ref(res) != nil && asunix(res).Name == asun(sa).Name && asunix(res).Net == "unix"
+//@   ensures !(typeis(sa, "*unix.SockaddrInet4") || typeis(sa, "*unix.SockaddrInet6") || typeis(sa, "*unix.SockaddrUnix")) ==> res == nil
+//
+//@ func SockaddrToUDPAddr(sa unix.Sockaddr) (res net.Addr)
+//@   requires ref(sa) != nil || sa == nil
+//@   ensures typeis(sa, "*unix.SockaddrInet4") ==> typeis(res, "*net.UDPAddr") && ref(res) != nil && asudp(res).Port == as4(sa).Port && len(asudp(res).IP) == 4 && len(asudp(res).Zone) == 0 &&
+//@        asudp(res).IP[0] == as4(sa).Addr[0] && asudp(res).IP[1] == as4(sa).Addr[1] && asudp(res).IP[2] == as4(sa).Addr[2] && asudp(res).IP[3] == as4(sa).Addr[3]
+//@   ensures typeis(sa, "*unix.SockaddrInet6") ==> typeis(res, "*net.UDPAddr") && ref(res) != nil && asudp(res).Port == as6(sa).Port && len(asudp(res).IP) == 16 &&
+//@        (forall k :: 0 <= k && k < 16 ==> asudp(res).IP[k] == as6(sa).Addr[k]) && (as6(sa).ZoneId == 0 ==> len(asudp(res).Zone) == 0)
+//@   ensures !(typeis(sa, "*unix.SockaddrInet4") || typeis(sa, "*unix.SockaddrInet6")) ==> res == nil
+//
+// Round trips (lemma functions in zz_lemmas_verif.go): same address bytes and port after net.Addr -> Sockaddr -> net.Addr.
+//@ func lemmaTCPRoundTrip(a *net.TCPAddr) (res net.Addr)
+//@   requires a != nil && len(a.Zone) == 0 && (len(a.IP) == 4 || (len(a.IP) == 16 && !net.v4mapped(a.IP)))
+//@   ensures typeis(res, "*net.TCPAddr") && ref(res) != nil && astcp(res).Port == a.Port && len(astcp(res).IP) == len(a.IP) && len(astcp(res).Zone) == 0
+//@   ensures forall k :: 0 <= k && k < len(a.IP) ==> astcp(res).IP[k] == a.IP[k]
+//
+//@ func lemmaUDPRoundTrip(a *net.UDPAddr) (res net.Addr)
+//@   requires a != nil && len(a.Zone) == 0 && (len(a.IP) == 4 || (len(a.IP) == 16 && !net.v4mapped(a.IP)))
+//@   ensures typeis(res, "*net.UDPAddr") && ref(res) != nil && asudp(res).Port == a.Port && len(asudp(res).IP) == len(a.IP) && len(asudp(res).Zone) == 0
+//@   ensures forall k :: 0 <= k && k < len(a.IP) ==> asudp(res).IP[k] == a.IP[k]
+//
+//@ func lemmaUnixRoundTrip(a *net.UnixAddr) (res net.Addr)
+//@   requires a != nil && a.Net == "unix"
+//@   ensures typeis(res, "*net.UnixAddr") && ref(res) != nil && asunix(res).Name == a.Name && asunix(res).Net == "unix"
+//
+//@ func lemmaSockaddr4RoundTrip(sa *unix.SockaddrInet4) (res unix.Sockaddr)
+//@   requires sa != nil
+//@   ensures typeis(res, "*unix.SockaddrInet4") && ref(res) != nil && as4(res).Port == sa.Port &&
+//@        as4(res).Addr[0] == sa.Addr[0] && as4(res).Addr[1] == sa.Addr[1] && as4(res).Addr[2] == sa.Addr[2] && as4(res).Addr[3] == sa.Addr[3]
